@@ -733,6 +733,8 @@ class ExprMixin:
             g = e.generators[0]
             it = self.eval(g.iter, env, cls)
             if isinstance(it, SymSeq):
+                if hasattr(it, "sym_before_map"):
+                    it.sym_before_map(self)  # contract hook: the element function may raise for some element (assumed contract of the callee)
                 return self.lazy_map(e.elt, g.target, it, env, cls)
             out = []
             if isinstance(it, tuple) and it and it[0] == "enumerate":
